@@ -679,7 +679,7 @@ fn routing_plan() -> super::s4common::Plan {
         profiles: vec![p, single],
         directed: vec![],
         quick_histories: 300,
-        thorough_histories: 30_000,
+        thorough_histories: 120_000,
         s5: None,
         enumerate_session_end: None,
         enumerate_symbols: None,
